@@ -247,6 +247,68 @@ def _three(M, m):
     return m
 
 
+def far_history(ck, sh, mm, gname, kind):
+    """Far field over real ground after a far-field request at an earlier frequency equals the far field of
+    a fresh model (pulse currents and power: uninterpreted functions of the wave number)."""
+    M = sh.mininec
+
+    def media(Mod):
+        if kind == 'one':
+            return [Mod.Medium(13.0, 0.005)]
+        return [Mod.Medium(13.0, 0.005, nradials=8, radius=0.002, coord=5.0, boundary='circular'), Mod.Medium(5.0, 0.001, height=-0.5)]
+
+    def fn():
+        f1, f2 = pos('f1', 1, 100), pos('f2', 1, 100)
+        res = []
+        with symx.object_arrays():
+            for which in ('hist', 'fresh'):
+                m = catalogue.build(M, gname, f=f1 if which == 'hist' else f2, media=media(M))
+                n = len(m.pulses)
+
+                def setcur(m=m, n=n):
+                    cur = np.empty(n, dtype=object)
+                    for k in range(n):
+                        cur[k] = core.ufn_c('I%d' % k, m.w)
+                    m.current = cur
+                    m.power = core.ufn('P', m.w)
+                zen, azi = M.Angle(40.0, 10.0, 1), M.Angle(20.0, 10.0, 1)
+                if which == 'hist':
+                    setcur()
+                    m.compute_far_field(zen, azi)
+                    m.f = f2
+                setcur()
+                m.compute_far_field(zen, azi)
+                res.append(m.far_field)
+        return dict(inputs=dict(f1=f1, f2=f2), res=res)
+
+    def goals(o):
+        h, f = o['res']
+        return [('far field after a request at f1 = fresh far field', z3.And(
+            eq_term(h.e_theta[0][0], f.e_theta[0][0]), eq_term(h.e_phi[0][0], f.e_phi[0][0]),
+            *[eq_term(a, b) if symx.is_sym(a) or symx.is_sym(b) else z3.BoolVal(a == b) for a, b in zip(h.gain[0][0], f.gain[0][0])]))]
+
+    def replay(c, gn, out):
+        zen, azi = mm.Angle(40.0, 10.0, 1), mm.Angle(20.0, 10.0, 1)
+        obs = []
+        for which in ('hist', 'fresh'):
+            m = catalogue.build(mm, gname, f=c['f1'] if which == 'hist' else c['f2'], media=media(mm))
+            m.register_source(mm.Excitation(1 + 0j), 1)
+            if which == 'hist':
+                m.compute()
+                m.compute_far_field(zen, azi)
+                m.f = c['f2']
+            m.compute()
+            m.compute_far_field(zen, azi)
+            obs.append((m.far_field.e_theta.copy(), m.far_field.gain.copy()))
+        if not (np.array_equal(obs[0][0], obs[1][0]) and np.array_equal(obs[0][1], obs[1][1])):
+            return ('C14:far-field-history:real-ground', '%s over real ground: far field at %r MHz after a far-field request at %r MHz '
+                    'is %r, a fresh model gives %r' % (gname, c['f2'], c['f1'], obs[0][0][0][0], obs[1][0][0][0]), dict(kind='far-history'))
+        return None
+    prove_paths(ck, 'far-history-%s-%s' % (gname, kind), fn, goals, replay, max_paths=16, fork_policy='assume',
+                prefer_true=('compute_far_field',), sqrt_mode='uf-free', twin_timeout_ms=3000, external_twin=True, abstract_mul=True,
+                timeout_ms=10000 if ck.tier == 'quick' else 60000)
+
+
 def run_to_run(ck, sh, mm, names):
     """(c): option file and load listing must not depend on the iteration order of object sets."""
     M = sh.mininec
@@ -312,6 +374,7 @@ def main(args):
     parts += [('histories', ([sq],)) for sq in history_seqs(ck.tier)]
     rnames = ['attach-2-of-3', 'attach-3-of-4', 'skin+ins'] if ck.tier == 'thorough' else ['attach-2-of-3', 'skin+ins']
     parts += [('run_to_run', ([n],)) for n in rnames]
+    parts += [('far_history', ('G14', 'one')), ('far_history', ('G7', 'radials'))]
     from .common import run_parallel
     run_parallel(ck, 'checks.c14', parts)
     ck.assumptions += ['Bessel functions, log, complex square root: uninterpreted functions / defining equations (so equal '
@@ -325,6 +388,7 @@ def main(args):
     ck.stubs += ['compute_impedance_matrix -> uninterpreted function of the wave number (histories)',
                  'set -> arbitrary iteration order (run-to-run)', 'np.linalg.solve -> exact Cramer']
     ck.outside += ['nondeterminism inside BLAS/LAPACK threads', 'near-field requests in histories (field kernels are C04)',
+                   'far-field histories use currents/power that are uninterpreted functions of the wave number (the solve is not repeated there)',
                    'timing/date output options']
     return ck.finish('Real load classes with their caches, the f setter, compute and compute_far_field executed on symbolic '
                      'frequencies/parameters after an arbitrary earlier visit; equality with a fresh model decided by z3. '
